@@ -180,7 +180,10 @@ func compare(cs Case, before, after *sqlm.Dump, changed []string, haveChangeSet 
 		subst := map[string]string{} // column -> quote()d default replacing NULL ("" = any non-NULL)
 		for _, c := range ta.Cols {
 			b := tb.Col(c.Name)
-			if b == nil || c.Gen != nil || b.Gen != nil || sqlm.Affinity(c.Type) != sqlm.Affinity(b.Type) {
+			// a generated column that becomes an ORDINARY column of the same class keeps its values too
+			// (it exists with the same name and type before and after); the opposite direction is
+			// recomputed by the database and carries no demand
+			if b == nil || b.Gen != nil || sqlm.Affinity(c.Type) != sqlm.Affinity(b.Type) {
 				continue
 			}
 			surv = append(surv, c.Name)
@@ -784,6 +787,9 @@ func workload(c *rt.Ctx) []Case {
 	// physical column order != schema column order followed by a rebuild for a non-column reason;
 	// storage classes that do not match the declared types (flexible typing, ANY) across edits
 	fixed := append(append(newPrefixCases(pool, modes), colOrderCases(pool, modes)...), flexCases(pool, modes, c.Quick())...)
+	// generated -> ordinary conversions; drop k of n columns (with and without simultaneous adds);
+	// column names that read as expressions / keywords
+	fixed = append(append(append(fixed, genToPlainCases(pool, modes)...), dropKCases(modes)...), exoticNameCases(modes)...)
 	for _, cs := range fixed {
 		add(cs)
 	}
@@ -1090,5 +1096,123 @@ func flexCases(pool []sqlm.PoolEntry, modes []string, quick bool) []Case {
 			n++
 		}
 	}
+	return out
+}
+
+// genToPlainCases: every generated column of the pool (VIRTUAL and STORED) becomes an ordinary column
+// of the same name and type on the populated table — alone, and together with a second change of the
+// same table — plus the opposite direction.
+func genToPlainCases(pool []sqlm.PoolEntry, modes []string) []Case {
+	var out []Case
+	n := 0
+	for _, pe := range pool {
+		if pe.Name == "all" {
+			continue
+		}
+		for _, e := range sqlm.Neighbourhood(pe.S) {
+			if e.Kind != "col.gen.to-plain" && e.Kind != "col.gen.from-plain" && e.Kind != "col.gen.toggle-stored" {
+				continue
+			}
+			b := e.Apply(pe.S)
+			out = append(out, Case{Pair: sqlm.Pair{A: pe.S, B: b, Mode: modes[n%len(modes)]}, Name: fmt.Sprintf("gen:%s/%s", pe.Name, e), Src: "gen-convert", Edits: []string{e.Kind}})
+			n++
+			if e.Kind == "col.gen.to-plain" {
+				if bb, ok := rebuildBy(b, e.Table); ok {
+					out = append(out, Case{Pair: sqlm.Pair{A: pe.S, B: bb, Mode: modes[n%len(modes)]}, Name: fmt.Sprintf("gen:%s/%s +check", pe.Name, e), Src: "gen-convert", Edits: []string{e.Kind, "check.add.named"}})
+					n++
+				}
+			}
+		}
+	}
+	return out
+}
+
+// dropKCases: a table of n columns (key + n-1 free columns) loses k of them and gains a new ones, for
+// every small (n, k, a) — so that every relation between the number of dropped columns and the
+// number of columns of the old and of the new definition occurs.
+func dropKCases(modes []string) []Case {
+	var out []Case
+	idx := 0
+	for n := 2; n <= 6; n++ {
+		for k := 1; k < n; k++ {
+			for a := 0; a <= 2; a++ {
+				t := sqlm.Table{Name: "dk", Cols: []sqlm.Col{{Name: "id", Type: "integer"}}, PK: []string{"id"}}
+				for i := 1; i < n; i++ {
+					t.Cols = append(t.Cols, sqlm.Col{Name: fmt.Sprintf("c%d", i), Type: []string{"text", "integer", "real"}[i%3], Null: true})
+				}
+				b := t.Clone()
+				// drop the k columns after the key, alternately from the front and the back
+				for d := 0; d < k; d++ {
+					if d%2 == 0 {
+						b.Cols = append(b.Cols[:1], b.Cols[2:]...)
+					} else {
+						b.Cols = b.Cols[:len(b.Cols)-1]
+					}
+				}
+				for i := 0; i < a; i++ {
+					c := sqlm.Col{Name: fmt.Sprintf("n%d", i), Type: "text", Null: true}
+					if i == 1 {
+						c = sqlm.Col{Name: "n1", Type: "integer", Default: &sqlm.Default{Kind: "num", V: "7"}}
+					}
+					b.Cols = append(b.Cols, c)
+				}
+				A, B := sqlm.Schema{Tables: []sqlm.Table{t}}, sqlm.Schema{Tables: []sqlm.Table{b}}
+				if A.Validate() != nil || B.Validate() != nil {
+					continue
+				}
+				out = append(out, Case{Pair: sqlm.Pair{A: A, B: B, Mode: modes[idx%len(modes)]}, Name: fmt.Sprintf("drop-k:n=%d,k=%d,add=%d", n, k, a), Src: "drop-k", Edits: []string{"col.drop"}})
+				idx++
+			}
+		}
+	}
+	return out
+}
+
+// exoticNameCases: a summary table whose column names read as expressions or keywords (what CREATE
+// TABLE … AS SELECT count(*), lower(region) … without aliases produces; names with blanks, commas,
+// '*', "where", "check") is rebuilt (named check on the key, WITHOUT ROWID toggle, drop / add of a
+// plain column) and altered in place.
+func exoticNameCases(modes []string) []Case {
+	n := func(name, typ string) sqlm.Col { return sqlm.Col{Name: name, Type: typ, Null: true} }
+	// snap: every exotic name is a VALID expression over the table (a planner that writes a name
+	// unquoted turns the copy into a different query); snapx: names that are not (such a statement is
+	// rejected and rolled back)
+	snap := sqlm.Table{Name: "snap", Cols: []sqlm.Col{
+		{Name: "id", Type: "integer"}, n("region", "text"), n("lower(region)", "text"), n("abs(id)", "integer"), n("count(*)", "integer"),
+		n("sum(id)", "real"), n("id + 1", "integer"), n("length(region) * 2", "numeric"), n("spare", "text")}, PK: []string{"id"}}
+	snapx := sqlm.Table{Name: "snapx", Cols: []sqlm.Col{
+		{Name: "id", Type: "integer"}, n("region", "text"), n("upper(region)", "text"), n("max(id), min(id)", "integer"),
+		n("price (usd)", "real"), n("a,b", "text"), n("somewhere else", "text"), n("x as y", "numeric"), n("spare", "text")}, PK: []string{"id"}}
+	base := sqlm.Schema{Tables: []sqlm.Table{snap, snapx}}
+	if err := base.Validate(); err != nil {
+		panic("c05 exoticNameCases: " + err.Error())
+	}
+	var out []Case
+	k := 0
+	addCase := func(name string, edit string, f func(t *sqlm.Table)) {
+		for ti := range base.Tables {
+			b := base.Clone()
+			f(&b.Tables[ti])
+			if err := b.Validate(); err != nil {
+				panic("c05 exoticNameCases " + name + ": " + err.Error())
+			}
+			out = append(out, Case{Pair: sqlm.Pair{A: base, B: b, Mode: modes[k%len(modes)]}, Name: "exotic-names:" + b.Tables[ti].Name + "/" + name, Src: "exotic-names", Edits: []string{edit}})
+			k++
+		}
+	}
+	addCase("check on key", "check.add.named", func(t *sqlm.Table) {
+		t.Checks = append(t.Checks, sqlm.Check{Name: t.Name + "_idck", Expr: "id > 0", Refs: []string{"id"}})
+	})
+	addCase("without rowid", "table.without-rowid.toggle", func(t *sqlm.Table) { t.WithoutRowID = true })
+	addCase("drop plain column", "col.drop", func(t *sqlm.Table) { t.Cols = t.Cols[:len(t.Cols)-1] })
+	addCase("drop exotic column", "col.drop", func(t *sqlm.Table) { t.Cols = append(t.Cols[:3], t.Cols[4:]...) })
+	addCase("region not null default", "col.null.to-notnull-default", func(t *sqlm.Table) {
+		t.Cols[1].Null = false
+		t.Cols[1].Default = &sqlm.Default{Kind: "str", V: "d"}
+	})
+	addCase("add column in place", "col.add.null", func(t *sqlm.Table) { t.Cols = append(t.Cols, n("extra", "integer")) })
+	addCase("add index in place", "idx.add.plain", func(t *sqlm.Table) {
+		t.Idx = append(t.Idx, sqlm.Idx{Name: t.Name + "_region", Parts: []sqlm.Part{{Col: "region"}}})
+	})
 	return out
 }
